@@ -12,5 +12,5 @@ FileLaws == ~done => LET a == Pairs[row].a b == Pairs[row].b x == VerCmpR(a, b) 
                      /\ VerCmp(a, a) = 0 /\ VerCmp(b, b) = 0
                      /\ x.v = -y.v /\ x.rule = y.rule
                      /\ (LowerAll(a) = LowerAll(b)) => x.v = 0
-ObsEmitFile(op, args, ret, post) == PrintT(ToJson([op |-> op, args |-> args, r |-> ret]))
+ObsEmitFile(op, args, ret, post) == PrintT(ToJson([op |-> op, args |-> args, r |-> ret, lv |-> DebugLevels]))
 ================================================================================
